@@ -877,3 +877,18 @@ Proof.
   exists [mk Onset nA; mk Offset nA], [mk Offset nA; mk Onset nA].
   split; [apply perm_swap|]. split; vm_compute; intro H; discriminate H.
 Qed.
+
+(* non-ASCII names: "Mass" written with sharp s (U+00DF), capital sharp s (U+1E9E) or SS, and a Greek name
+   with final sigma (U+03C2) vs capital sigma, are one name each (keys "mass" and the folded Greek word) *)
+Definition nMasz : str := [77%N; 97%N; 223%N].
+Definition nMASS : str := [77%N; 65%N; 83%N; 83%N].
+Definition nmaSZ : str := [109%N; 97%N; 7838%N].
+Definition nEchos : str := [905%N; 967%N; 959%N; 962%N].
+Definition nECHOS : str := [905%N; 935%N; 927%N; 931%N].
+
+Lemma ex_nonascii_run :
+  casefold nMasz = [109%N; 97%N; 115%N; 115%N] /\
+  run state0 [[mk Onset nMasz; mk Onset nEchos]; [mk Inset nMASS; mk Inset nECHOS]; [mk Offset nmaSZ];
+              [mk Offset nMasz; mk Offset nECHOS]; [mk Inset nEchos]] =
+  ([], [[]; []; []; [mkIssue OffsetBeforeOnset 0 nMasz]; [mkIssue InsetBeforeOnset 0 nEchos]]).
+Proof. vm_compute. split; reflexivity. Qed.
